@@ -1,0 +1,35 @@
+//go:build verif
+
+package rollout
+
+import (
+	"k8s.io/apimachinery/pkg/runtime"
+	"k8s.io/client-go/tools/record"
+	"sigs.k8s.io/controller-runtime/pkg/client"
+
+	"github.com/openkruise/rollouts/api/v1beta1"
+	"github.com/openkruise/rollouts/pkg/trafficrouting"
+	"github.com/openkruise/rollouts/pkg/util"
+)
+
+// VerifNewReconciler builds a RolloutReconciler the way SetupWithManager does, from explicit parts
+// (verification harness only; compiled with -tags verif).
+func VerifNewReconciler(cli client.Client, scheme *runtime.Scheme, recorder record.EventRecorder) *RolloutReconciler {
+	r := &RolloutReconciler{Client: cli, Scheme: scheme, Recorder: recorder}
+	r.finder = util.NewControllerFinder(cli)
+	r.trafficRoutingManager = trafficrouting.NewTrafficRoutingManager(cli)
+	r.canaryManager = &canaryReleaseManager{Client: cli, trafficRoutingManager: r.trafficRoutingManager, recorder: recorder}
+	r.blueGreenManager = &blueGreenReleaseManager{Client: cli, trafficRoutingManager: r.trafficRoutingManager, recorder: recorder}
+	return r
+}
+
+// VerifSetGraceSeconds overrides the grace period (seconds) used between the phases of a rollout.
+func VerifSetGraceSeconds(s int32) { defaultGracePeriodSeconds = s }
+
+// VerifNextCanaryTask / VerifNextBlueGreenTask expose the finalising task order.
+func VerifNextCanaryTask(reason string, current v1beta1.FinalisingStepType) v1beta1.FinalisingStepType {
+	return nextCanaryTask(reason, current)
+}
+func VerifNextBlueGreenTask(reason string, current v1beta1.FinalisingStepType) v1beta1.FinalisingStepType {
+	return nextBlueGreenTask(reason, current)
+}
